@@ -42,6 +42,14 @@ def correspondence(ctx):
     # one round through the public rules (implementation-level oracle + histogram of rounds used)
     for h in sorted(rnd):
         cases.append(f'composed|nick|round|{h}')
+    # every code point at which any table-driven behaviour changes, alone and next to an ASCII letter
+    bc = boundary_cps(ctx, None if ctx.tier == 'quick' else 11)
+    corr.count('boundary_code_points', len(bc))
+    for prof_, op_ in (('nick','prepare'),('nick','enforce')):
+        for c_ in bc:
+            cases.append(f'prof|{prof_}|{op_}|f|b|{c_:04X}|')
+            cases.append(f'prof|{prof_}|{op_}|f|b|0061 {c_:04X}|')
+            cases.append(f'prof|{prof_}|{op_}|f|b|{c_:04X} 0041|')
     res = run_cases(cases, ctx.work)
     round_results = {}
     for case, impl_, _, _ in res:
